@@ -26,7 +26,9 @@ def alphabet(tier):
         ops.append(("rm", E1, (f"k={v}",)))
     ops += [("add", E1, ("j=1",)), ("update", E1, ("j=2",)), ("rm", E1, ("k",)), ("rm", E1, ("j",)),
             ("add", E1, ("k=1", "k=2")), ("update", E1, ("k=1", "j=1")), ("rm", E1, ("k=1", "j")),
-            ("add", E2, ("k=1",)), ("update", E2, ("k=2",)), ("rm", E2, ("k",))]
+            ("add", E2, ("k=1",)), ("update", E2, ("k=2",)), ("rm", E2, ("k",)),
+            # one command carrying two values that are equal in Python but different JSON values; a repeated key that is not adjacent
+            ("add", E1, ("k=1", "k=true")), ("update", E1, ("k=1", "j=2", "k=2"))]
     if tier != "quick":
         ops += [("add", E1, ("k=[1]",)), ("update", E1, ("k=[1]",)), ("rm", E1, ("k=[1]",)), ("add", E2, ("j=1",))]
     return ops
@@ -253,7 +255,7 @@ def run(ctx):
         "transitions_with_a_pair_current_twice": dup_current,
         "exhaustive": True,
         "rule": f"level-synchronous BFS over all histories of <= {L} tag commands (add/update/rm through the real RedunClient command handlers "
-        "and their argument parsing) on two entities, keys {k,j}, values {1,2,\"1\"[,[1]]}, incl. multi-pair commands, key-only and exact-pair "
+        "and their argument parsing) on two entities, keys {k,j}, values {1,2,\"1\"[,[1]]}, incl. multi-pair commands (also two Python-equal but JSON-different values of one key, and a repeated key that is not adjacent), key-only and exact-pair "
         "removal; states = database files, merged when the tag and tag_edit tables are equal; after every command the SET of current "
         "(key, value) pairs of each entity equals the reference multimap and the edit graph is acyclic",
         "samples": samples or ["-"],
